@@ -55,6 +55,87 @@ pub fn diff_loaded(expect: &RDoc, loaded: &Document, containers: &BTreeSet<u32>)
     diffs
 }
 
+/// `extra` incremental updates on top of `d`: each redefines about a quarter of the objects and adds up to two new ones
+pub fn extend_history(r: &mut Rng, d: &RDoc, extra: usize) -> History {
+    let mut h = History::from_doc(d);
+    let mut cur = d.clone();
+    for _ in 0..extra {
+        let mut rev = Revision { objects: BTreeMap::new(), trailer: cur.trailer.clone() };
+        let ids: Vec<(u32, u16)> = cur.objects.keys().cloned().collect();
+        let cfg = gen::ObjCfg { max_depth: 2, refs: true, ref_pool: ids.clone(), max_str: 20, max_children: 4 };
+        for id in &ids {
+            if r.chance(1, 4) {
+                let mut o = gen::top_object(r, &cfg);
+                sanitize_for_refwriter(&mut o);
+                rev.objects.insert(*id, o);
+            }
+        }
+        let mx = cur.max_num();
+        for k in 0..r.usize_below(3) as u32 {
+            let mut o = gen::top_object(r, &cfg);
+            sanitize_for_refwriter(&mut o);
+            rev.objects.insert((mx + 1 + k, 0), o);
+        }
+        for (id, o) in &rev.objects {
+            cur.objects.insert(*id, o.clone());
+        }
+        h.revisions.push(rev);
+    }
+    h
+}
+
+/// A file with incremental updates: the document it defines is the merge of all its revisions.
+pub fn run_case_history(h: &History, wseed: u64, style: XrefStyle, objstm: bool, disabled: &BTreeSet<String>) -> CaseResult {
+    let (w, used) = write_history(wseed, disabled, h, style, objstm);
+    let expect = h.merged(h.revisions.len() - 1);
+    let diffs = match crate::props::catch(|| Document::load_mem(&w.bytes)) {
+        Err(p) => vec![((0, 0), format!("load_mem panicked: {}", p))],
+        Ok(Err(e)) => vec![((0, 0), format!("load_mem failed: {:?}", e))],
+        Ok(Ok(doc)) => diff_loaded(&expect, &doc, &w.container_ids),
+    };
+    CaseResult { diffs, used, bytes: w.bytes }
+}
+
+/// Finding for a multi-revision file: writer features are minimised (known-finding features switched off first, as in
+/// `finding`), the revisions themselves are kept as generated.
+pub fn finding_history(h: &History, wseed: u64, style: XrefStyle, objstm: bool) -> Finding {
+    let all: BTreeSet<String> = known_has_features().into_iter().collect();
+    let with_known_off = run_case_history(h, wseed, style, objstm, &all);
+    let (disabled, res) = if !all.is_empty() && with_known_off.diffs.is_empty() {
+        let mut res = run_case_history(h, wseed, style, objstm, &BTreeSet::new());
+        res.used.retain(|k, _| all.contains(k));
+        (BTreeSet::new(), res)
+    } else {
+        let mut disabled = all.clone();
+        let mut cur = with_known_off;
+        for _round in 0..2 {
+            let feats: Vec<String> = cur.used.keys().cloned().collect();
+            for f in feats {
+                let mut dis2 = disabled.clone();
+                dis2.insert(f.clone());
+                let r = run_case_history(h, wseed, style, objstm, &dis2);
+                if !r.diffs.is_empty() {
+                    disabled = dis2;
+                    cur = r;
+                }
+            }
+        }
+        (disabled, cur)
+    };
+    let (w, _) = write_history(wseed, &disabled, h, style, objstm);
+    // the feature list stays the last segment (known findings are matched on it)
+    let sig = signature(style, &res.used).replacen(if style == XrefStyle::Table { "/table/" } else { "/stream/" }, if style == XrefStyle::Table { "/table-updates/" } else { "/stream-updates/" }, 1);
+    Finding {
+        signature: sig.clone(),
+        what: format!("loaded document differs from what the file ({} revisions) defines: {}", h.revisions.len(), res.diffs.first().map(|x| x.1.clone()).unwrap_or_default()),
+        witness: json!({
+            "kind":"file","expect":rdoc_to_json(&h.merged(h.revisions.len() - 1)),"containers": w.container_ids.iter().collect::<Vec<_>>(),
+            "signature": sig, "features_needed": res.used, "revisions": h.revisions.len(),
+            "file_hex": hex(&w.bytes), "file_text": String::from_utf8_lossy(&w.bytes[..w.bytes.len().min(3000)]),
+        }),
+    }
+}
+
 pub struct CaseResult {
     pub diffs: Vec<((u32, u16), String)>,
     pub used: BTreeMap<String, u64>,
@@ -192,7 +273,16 @@ pub fn run(cfg: &RunCfg) -> (PropMeta, ShardOut, Map<String, Value>) {
             let objstm = r.chance(3, 4);
             let wseed = r.next_u64();
             let t_case = std::time::Instant::now();
-            let res = run_case(&d, wseed, style, objstm, &none);
+            // one file in five carries one or two incremental updates (sections that list only the new objects)
+            let updates = if r.chance(1, 5) { 1 + r.usize_below(2) } else { 0 };
+            let hist = if updates > 0 { Some(extend_history(&mut r, &d, updates)) } else { None };
+            let res = match &hist {
+                Some(h) => run_case_history(h, wseed, style, objstm, &none),
+                None => run_case(&d, wseed, style, objstm, &none),
+            };
+            if hist.is_some() {
+                out.count("files_with_incremental_updates");
+            }
             if std::env::var("VH_SLOW").is_ok() && t_case.elapsed().as_secs_f64() > 0.5 { eprintln!("SLOW run_case shard {} i {} {:.1}s objects {} bytes {}", shard, i, t_case.elapsed().as_secs_f64(), d.objects.len(), res.bytes.len()); }
             out.evaluations += 1;
             out.digests.insert(crate::prng::fnv_bytes(&res.bytes));
@@ -203,7 +293,10 @@ pub fn run(cfg: &RunCfg) -> (PropMeta, ShardOut, Map<String, Value>) {
             out.count(if style == XrefStyle::Table { "files_xref_table" } else { "files_xref_stream" });
             if !res.diffs.is_empty() {
                 let t_f = std::time::Instant::now();
-                out.finding(finding(&d, wseed, style, objstm));
+                out.finding(match &hist {
+                    Some(h) => finding_history(h, wseed, style, objstm),
+                    None => finding(&d, wseed, style, objstm),
+                });
                 if std::env::var("VH_SLOW").is_ok() && t_f.elapsed().as_secs_f64() > 0.5 { eprintln!("SLOW finding shard {} i {} {:.1}s objects {}", shard, i, t_f.elapsed().as_secs_f64(), d.objects.len()); }
             } else {
                 out.count("files_loaded_equal");
@@ -216,7 +309,7 @@ pub fn run(cfg: &RunCfg) -> (PropMeta, ShardOut, Map<String, Value>) {
     });
     let meta = PropMeta {
         level: "exploration",
-        rule: "random legal abstract documents serialised by the independent reference writer (random white-space/comments/EOL style, number/name/string spellings, object order and gaps, multi-subsection tables, xref streams with varying W/Index, object streams, indirect Length, Flate/LZW/ASCII85 + PNG predictors on structural streams, junk before the header) -> Document::load_mem -> compared with the abstract document. distinct = distinct file bytes; per-feature file counts in counters.".into(),
+        rule: "random legal abstract documents serialised by the independent reference writer (random white-space/comments/EOL style, number/name/string spellings, object order and gaps, multi-subsection tables, xref streams with varying W/Index, object streams, indirect Length, Flate/LZW/ASCII85 + PNG predictors on structural streams, junk before the header; one file in five with one or two incremental updates) -> Document::load_mem -> compared with the abstract document. distinct = distinct file bytes; per-feature file counts in counters.".into(),
         assumptions: vec![
             "only legal files: no NUL in names, Root present, one generation per number, same xref style in a file; hybrid XRefStm files and later-revision free entries are outside the domain".into(),
             "byte offsets are relative to the %PDF- header when junk precedes it".into(),
@@ -258,31 +351,8 @@ pub fn mutual_selftest(n: u64) -> Result<(), String> {
         let objstm = r.bool();
         let wseed = r.next_u64();
         // 1..3 revisions
-        let mut h = History::from_doc(&d);
         let nrev = r.usize_below(3);
-        let mut cur = d.clone();
-        for _ in 0..nrev {
-            let mut rev = Revision { objects: BTreeMap::new(), trailer: cur.trailer.clone() };
-            let ids: Vec<(u32, u16)> = cur.objects.keys().cloned().collect();
-            let cfg = gen::ObjCfg { max_depth: 2, refs: true, ref_pool: ids.clone(), max_str: 20, max_children: 4 };
-            for id in &ids {
-                if r.chance(1, 4) {
-                    let mut o = gen::top_object(&mut r, &cfg);
-                    sanitize_for_refwriter(&mut o);
-                    rev.objects.insert(*id, o);
-                }
-            }
-            let mx = cur.max_num();
-            for k in 0..r.usize_below(3) as u32 {
-                let mut o = gen::top_object(&mut r, &cfg);
-                sanitize_for_refwriter(&mut o);
-                rev.objects.insert((mx + 1 + k, 0), o);
-            }
-            for (id, o) in &rev.objects {
-                cur.objects.insert(*id, o.clone());
-            }
-            h.revisions.push(rev);
-        }
+        let h = extend_history(&mut r, &d, nrev);
         let (w, used) = write_history(wseed, &BTreeSet::new(), &h, style, objstm);
         for k in used.keys() {
             *features.entry(k.clone()).or_insert(0) += 1;
